@@ -444,7 +444,7 @@ func main() {
 			"goroutine interleavings inside one Solve call are not modelled; SimulateScheduling/Schedule are modelled at method granularity",
 		},
 	}
-	c.Finish("From KV Require Import C18.Model C18.Check.", "case", "check_all", 1200)
+	c.Finish("From KV Require Import C18.Model C18.Check.", "case", "check_all", 500)
 	_ = pscheduling.Requirements{}
 	_ = corev1.Pod{}
 }
